@@ -48,6 +48,9 @@ def run(ctx, progs):
         deriv1(ctx, prog, cfg)
         none1(ctx, prog, cfg)
         shapes.viewcmp1(ctx, prog, cfg)
+        from . import c08
+
+        c08.iterset1(ctx, prog, cfg, "DERIV1", types=("Iter", "IterMut"))
         for a, b in TWINS:
             # calls with argument provenance and returned values; the guards of the accessors are
             # decided semantically by NONE1/ACC1/MOD1, so that an equivalent re-spelling of a guard
